@@ -1,6 +1,7 @@
 import RvModel.Hand.Dispatch
 import RvModel.Hand.DispatchC01B
+import RvModel.Hand.DispatchC01C
 /- all hand-written driver entries (integrator-maintained) -/
 namespace HandDispatch
-def table : List (String × Rd String) := tableC01A ++ tableC01B
+def table : List (String × Rd String) := tableC01A ++ tableC01B ++ tableC01C
 end HandDispatch
